@@ -238,7 +238,7 @@ impl SystemLocality {
     }
 
     pub fn set_entry_value(&mut self, initiator_idx: usize, target_idx: usize, value: u16) {
-        self.entries[initiator_idx * self.initiators.len() + target_idx] = value;
+        self.entries[initiator_idx * self.targets.len() + target_idx] = value;
     }
 
     fn len(&self) -> usize {
